@@ -1758,7 +1758,7 @@ package sarama
 // of the group and is subscribed to the partition's topic.
 // Precondition (established by consumerGroup.balance, which builds `topics` from the members' subscriptions):
 // every topic passed in has at least one subscriber - otherwise the search for a subscriber would not terminate.
-//@ func (b *roundRobinBalancer) Plan(memberAndMetadata, topics) props C08 C13
+//@ func (b *roundRobinBalancer) Plan(memberAndMetadata, topics) props C08
 //@   returns plan, err
 //@   per_return
 //@   requires memberAndMetadata != nil && topics != nil
